@@ -42,6 +42,8 @@ type c25ES struct {
 	es       *agent.VerifEventStream
 	filters  []agent.EventFilter
 	inflight bool
+	dead     bool // a Send failed: the stream goroutine has returned
+	halted   bool // Stop() was called; HandleEvent must ignore everything from now on
 	shown    int
 }
 
@@ -168,7 +170,7 @@ func c25Exec(ops []string) []string {
 			}
 			ent := es.rec.Entered()
 			es.es.HandleEvent(e)
-			if !es.inflight {
+			if !es.inflight && !es.halted && !es.dead {
 				// an idle stream goroutine must pick a wanted event up; wait for it to reach Send.
 				// (which events are wanted is asked of the real filter, only to know whether to wait)
 				want := false
@@ -190,6 +192,23 @@ func c25Exec(ops []string) []string {
 				fl = 1
 			}
 			outs = append(outs, fmt.Sprintf("buf=%d fl=%d", es.es.BufLen(), fl))
+		case len(f) == 1 && f[0] == "relfail" && es != nil:
+			if es.inflight {
+				done := es.rec.Completed()
+				es.rec.FailAt = es.rec.Entered() // the Send now parked is the latest one entered
+				es.rec.Release(1)
+				if !c25WaitFor(func() bool { return es.rec.Completed() > done }) {
+					outs = append(outs, "TIMEOUT failing send")
+					continue
+				}
+				es.inflight = false
+				es.dead = true
+			}
+			outs = append(outs, es.newRecs())
+		case len(f) == 1 && f[0] == "halt" && es != nil:
+			es.es.Stop()
+			es.halted = true
+			outs = append(outs, "ok")
 		case len(f) == 2 && f[0] == "rel" && es != nil:
 			k, err := strconv.Atoi(f[1])
 			if err != nil {
@@ -278,7 +297,8 @@ func c25Exec(ops []string) []string {
 		case len(f) == 1 && f[0] == "qend" && qs != nil:
 			select {
 			case <-qs.returned:
-			case <-time.After(c25Wait):
+			case <-time.After(c25Deadline()):
+				c25Broken = true
 				outs = append(outs, "TIMEOUT stream did not return")
 				continue
 			}
@@ -693,6 +713,10 @@ func c25Gen(rng *rand.Rand, tier string) []Case {
 		for j := 0; j < k; j++ {
 			if rng.Intn(4) == 0 {
 				ops = append(ops, fmt.Sprintf("rel %d", 1+rng.Intn(4)))
+			} else if rng.Intn(25) == 0 {
+				ops = append(ops, "halt")
+			} else if rng.Intn(30) == 0 {
+				ops = append(ops, "relfail")
 			} else {
 				ops = append(ops, ev(j+1))
 			}
